@@ -423,6 +423,17 @@ def r5_normalisation(ctx, res):
         ctx.ob("C07.R5", RES, "TransactionResult.filter", rets[0] if rets else g, f"`{nm}` reads a list-valued param back as tuple(<the list>) -- one level, keys and every other value unchanged", ok,
                detail={"value": shown}, stmt=f"normaliser {nm}")
     ctx.floor("C07.R5", "param normalisers applied in TransactionResult.filter", len(shallow), 1)
+    # packed interaction columns: the list -> tuple conversion is decided cell by cell
+    packers = sorted({c.func.id for c in ast.walk(res) if isinstance(c, ast.Call) and isinstance(c.func, ast.Name) and c.func.id in helpers
+                      and c.args and "_packed" in unparse(c.args[0])})
+    ctx.floor("C07.R5", "normalisers applied to packed interaction columns", len(packers), 1)
+    for nm in packers:
+        g = helpers[nm]
+        first_cell = [x for x in ast.walk(g) if isinstance(x, ast.Subscript) and unparse(x.slice) == "0" and any(isinstance(a, (ast.IfExp, ast.If)) and x in list(ast.walk(a.test)) for a in ast.walk(g) if isinstance(a, (ast.IfExp, ast.If)))]
+        per_cell = [c for c in ast.walk(g) if isinstance(c, ast.ListComp) and isinstance(c.elt, ast.IfExp) and isinstance(c.generators[0].target, ast.Name)
+                    and c.generators[0].target.id in {x.id for x in ast.walk(c.elt.test) if isinstance(x, ast.Name)}]
+        ctx.ob("C07.R5", RES, "TransactionResult.filter", g, f"`{nm}` converts list cells to tuples cell by cell (a column may hold lists in some rows and None / other values in others)",
+               bool(per_cell) and not first_cell, detail={"decided from the first cell": [unparse(x) for x in first_cell]}, stmt=f"packed normaliser {nm}")
     for tag in ("E", "L", "V"):
         arms = [x for x in ast.walk(res) if isinstance(x, ast.If) and isinstance(x.test, ast.Compare) and const_str(x.test.comparators[0]) == tag and len(x.test.ops) == 1 and isinstance(x.test.ops[0], ast.Eq)]
         ok = bool(arms) and all(any(isinstance(c, ast.Call) and call_tail(c) == "update" and c.args and isinstance(c.args[0], ast.Call) and isinstance(c.args[0].func, ast.Name) and c.args[0].func.id in shallow
@@ -438,6 +449,8 @@ def _sort_keys_default(tree):
 
 
 CONTROLS = [
+    ("packed column converted by its first cell", RES, M.replace_expr("TransactionResult.filter", "[tuple(c) if c.__class__ is list else c for c in v] if k != 'rewards' else v",
+                                                                     "list(map(tuple, v)) if k != 'rewards' and isinstance(v[0], list) else v"), "C07.R5"),
     ("absent column padded with the table length", RES, M.replace_expr("Table.insert", "repeat(Missing, dat_len)", "repeat(Missing, old_len)"), "C07.R6"),
     ("nested floats rounded without isfinite", "coba/utilities.py", M.replace_expr("minimize", "isinstance(v, float) and isfinite(v)", "isinstance(v, float)"), "C07.R7"),
     ("params tuple-d recursively", RES, M.replace_expr("TransactionResult.filter", "tuple(v) if isinstance(v, list) else v", "tuple(map(tuple, v)) if isinstance(v, list) else v"), "C07.R5"),
